@@ -1,3 +1,3 @@
 #!/bin/bash
 cd /verif
-tools/detect_matrix.sh /tmp/dm6.tsv C02-s8:C02,C04 C05-s8:C05,C02 C10-s8:C10 C01-s9:C01 C01-s9b:C01 C04-s9:C04,C02 C11-s9:C11 C06-s10:C06 C13-s10:C13 C03-s10:C03 C14-s11:C14 C08-s11:C08 C09-s11:C09 C07-s11:C07 C12-s3:C12
+tools/detect_matrix.sh /tmp/dm6.tsv C05-s8:C05,C02 C10-s8:C10 C01-s9:C01 C01-s9b:C01 C04-s9:C04,C02 C11-s9:C11 C06-s10:C06 C13-s10:C13 C03-s10:C03 C14-s11:C14 C08-s11:C08 C09-s11:C09 C07-s11:C07 C12-s3:C12
